@@ -8,7 +8,7 @@ import (
 )
 
 // ------------------------------------------------------------- value pools
-var cornersI32 = []uint32{0, 1, 2, 3, 0xffffffff, 0xfffffffe, 0x7fffffff, 0x80000000, 0x80000001, 0x7ffffffe,
+var cornersI32 = []uint32{0, 1, 0xffffffff, 0x80000000, 0x7fffffff, 2, 0xfffffffe, 0x80000001, 3, 0x7ffffffe,
 	31, 32, 33, 63, 64, 65, 0xff, 0x100, 0x7fff, 0x8000, 0xffff, 0x10000, 0x00ffffff, 0x00800000, 0x007fffff,
 	0x01000000, 0xff000000, 0x55555555, 0xaaaaaaaa, 0x0000ff00, 0x12345678, 0x80008000, 0x00010001}
 
@@ -60,6 +60,9 @@ func pick32(r *rand.Rand, vt byte, k int) uint32 {
 	case 'b':
 		pool = cornersBF
 	case 't':
+		if k < 0 {
+			return uint32(r.Intn(5))
+		}
 		return uint32(k % 5)
 	case 'h':
 		hs := []uint32{0, 1, 0xffff, 0x8000, 0x7fff, 0x10000, 0xffff0000, 0x12348000, 0x0001ffff, 0x7fff8000, 0xabcd0001, 15, 16, 17}
@@ -204,9 +207,9 @@ func (g *gen) scalarSrc(c *Case, key string, w int, vt byte, val uint64, slot in
 			kind = 1
 		case x < 13 && allowLit && w == 32:
 			kind = 2
-		case x == 13:
+		case x == 13 && w == 64:
 			kind = 3
-		case x == 14:
+		case x == 14 && w == 64:
 			kind = 4
 		case x == 15 && w == 32:
 			kind = 5
@@ -330,9 +333,13 @@ func (g *gen) genScalar(arch, st string, d opDef, ka, kb int) *Case {
 					kindB = 2
 				}
 			case 2:
-				kindA = 3
+				if d.aw == 64 {
+					kindA = 3
+				}
 			case 3:
-				kindB = 4
+				if d.bw == 64 {
+					kindB = 4
+				}
 			}
 		}
 		s0 := g.scalarSrc(c, "s0", d.aw, vtAt(d, 0), a, 8, true, kindA)
@@ -525,9 +532,9 @@ func has(flag, f string) bool { return strings.Contains(flag, f) }
 
 func (g *gen) genVector(arch, st string, d opDef, rk int) *Case {
 	c := g.newCase(arch, st, d)
-	c.EXEC = g.execMask(rk + g.r.Intn(2)*3)
-	if rk == 0 {
-		c.EXEC = ^uint64(0)
+	c.EXEC = g.execMask(g.r.Intn(6))
+	if rk >= 0 {
+		c.EXEC = ^uint64(0) // corner cross-product records: every lane carries a combination
 	}
 	na := poolLen(vtAt(d, 0))
 	isF := strings.ContainsAny(d.vt, "fdp")
@@ -665,7 +672,7 @@ func (g *gen) wildLDS() uint64 { return uint64(0x7fff0000 + g.r.Intn(4096)*4) }
 
 func (g *gen) genDS(arch, st string, d opDef, rk int) *Case {
 	c := g.newCase(arch, st, d)
-	c.EXEC = g.execMask(rk)
+	c.EXEC = g.execMask(g.r.Intn(6))
 	c.LDS = make([]byte, ldsSize)
 	g.r.Read(c.LDS)
 	two := d.tmpl == "ds_w2" || d.tmpl == "ds_r2"
@@ -754,7 +761,7 @@ func (g *gen) genDS(arch, st string, d opDef, rk int) *Case {
 
 func (g *gen) genFlat(arch, st string, d opDef, rk int) *Case {
 	c := g.newCase(arch, st, d)
-	c.EXEC = g.execMask(rk)
+	c.EXEC = g.execMask(g.r.Intn(6))
 	c.Mem = make([]byte, memSize)
 	g.r.Read(c.Mem)
 	c.MBase = (g.r.Uint64() & 0x0000fffffffff000) | 0x2000
@@ -930,28 +937,42 @@ func (g *gen) genC03(scale int, only map[string]bool) {
 					g.cases = append(g.cases, g.one(arch, st, d, rk, -1, -1))
 				}
 			} else {
-				na, nb := 8+2*scale, 8+2*scale
-				if d.aw == 0 {
-					na = 1
-				}
-				if d.bw == 0 && d.tmpl != "sopk" {
-					nb = 1
-				}
-				if d.tmpl == "sopp" || d.tmpl == "smem" {
-					na, nb = 8, 1
-				}
-				cnt := 0
-				for ka := 0; ka < na; ka++ {
-					for kb := 0; kb < nb; kb++ {
-						st := "emu"
-						if cnt%5 == 4 {
-							st = "timing"
-						}
-						cnt++
-						// corner indices walk the pools with a stride so that every pair of a small
-						// prefix and a spread of the rest are visited
-						g.cases = append(g.cases, g.one(arch, st, d, -1, ka*3+cnt%3, kb*3+(cnt/3)%3))
+				pa, pb := poolLen(vtAt(d, 0)), poolLen(vtAt(d, 1))
+				var pairs [][2]int
+				switch {
+				case d.tmpl == "sopp" || d.tmpl == "smem":
+					for k := 0; k < 8; k++ {
+						pairs = append(pairs, [2]int{k, 0})
 					}
+				case d.tmpl == "sopk":
+					for ka := 0; ka < 10; ka++ {
+						for kb := 0; kb < 6; kb++ {
+							pairs = append(pairs, [2]int{ka, kb})
+						}
+					}
+				case d.aw == 0:
+					pairs = append(pairs, [2]int{0, 0}, [2]int{1, 1})
+				case d.bw == 0:
+					for ka := 0; ka < pa; ka++ {
+						pairs = append(pairs, [2]int{ka, 0})
+					}
+				default:
+					p := 8 + 2*scale
+					for ka := 0; ka < p && ka < pa; ka++ {
+						for kb := 0; kb < p && kb < pb; kb++ {
+							pairs = append(pairs, [2]int{ka, kb})
+						}
+					}
+					for k := 0; k < pa || k < pb; k++ {
+						pairs = append(pairs, [2]int{k % pa, (k*7 + 3) % pb}, [2]int{(k*5 + 1) % pa, k % pb})
+					}
+				}
+				for cnt, p := range pairs {
+					st := "emu"
+					if cnt%5 == 4 {
+						st = "timing"
+					}
+					g.cases = append(g.cases, g.one(arch, st, d, -1, p[0], p[1]))
 				}
 				for k := 0; k < 10*scale; k++ {
 					st := "emu"
@@ -960,6 +981,38 @@ func (g *gen) genC03(scale int, only map[string]bool) {
 					}
 					g.cases = append(g.cases, g.one(arch, st, d, -1, -1, -1))
 				}
+			}
+		}
+	}
+}
+
+// genSpecialSrc: 32-bit reads of the halves of VCC / EXEC as scalar sources (kept apart from the
+// main batch: they exercise the operand resolution of the register store rather than the ALU).
+func (g *gen) genSpecialSrc(scale int) {
+	for _, d := range buildTable() {
+		if d.f != "SOP2" || d.aw != 32 || d.bw != 32 || d.cls != "ref" {
+			continue
+		}
+		if d.op != 0 && d.op != 7 && d.op != 30 && d.op != 12 {
+			continue
+		}
+		for _, arch := range archs(d) {
+			for k := 0; k < 6*scale; k++ {
+				st := "emu"
+				if k%3 == 2 {
+					st = "timing"
+				}
+				c := g.newCase(arch, st, d)
+				c.Tag = "special_src"
+				a := val(g.r, 32, 'i', -1)
+				b := val(g.r, 32, vtAt(d, 1), -1)
+				s0 := g.scalarSrc(c, "s0", 32, 'i', a, 8, false, 3+k%2)
+				s1 := g.scalarSrc(c, "s1", 32, 'i', b, 10, false, 0)
+				c.VCC |= uint64(g.r.Uint32()|1) << 32
+				c.EXEC |= uint64(g.r.Uint32()|1) << 32
+				c.Ops["d"] = OpLog{C: 20, N: 1}
+				c.Enc = encSOP2(d.op, 20, s0, s1, nil)
+				g.cases = append(g.cases, c)
 			}
 		}
 	}
